@@ -24,6 +24,7 @@ S = 'pybufrkit/script.py'
 C = 'pybufrkit/constants.py'
 D = 'pybufrkit/descriptors.py'
 U = 'pybufrkit/utils.py'
+Q = 'pybufrkit/dataquery.py'
 
 MUTS = [
     # ---- stage A: constants ------------------------------------------------------------------
@@ -81,10 +82,52 @@ MUTS = [
     ('C14', 'preserve', 'C18', S, "            if c == '}':\n                state = STATE_IDLE\n", "            if c == '}':\n                state = ''\n"),
     ('C15', 'preserve', 'C18', S, "        elif c == '\\n' and state == STATE_COMMENT:\n            state = STATE_IDLE\n            keep.append(c)\n\n        else:\n            keep.append(c)\n",
      "        else:\n            if c == '\\n' and state == STATE_COMMENT:\n                state = STATE_IDLE\n            keep.append(c)\n"),
+    # ---- stage D: the whole NodePathParser of dataquery.py (stateful class, C15_src_parse_eq) ----------------
+    ('D1', 'change', 'C15', Q, "                if self.current_state == STATE_START_PARSING:\n                    self.current_state = STATE_START_SUBSET\n",
+     "                if True:\n                    self.current_state = STATE_START_SUBSET\n"),
+    ('D2', 'change', 'C15', Q, "            if self.current_slice_elements[0] >= 0:", "            if self.current_slice_elements[0] > 0:"),
+    ('D3', 'change', 'C15', Q, "self.current_slice_elements[0] + 1 if self.current_slice_elements[0] != -1 else None,",
+     "self.current_slice_elements[0] + 1,"),
+    ('D4', 'change', 'C15', Q, "            ret = None if self.current_token == '' else int(self.current_token)\n            self.current_token = ''\n",
+     "            ret = None if self.current_token == '' else int(self.current_token)\n"),
+    ('D5', 'change', 'C15', Q, "    def handle_separator(self, c):\n        if self.current_state == STATE_START_PARSING",
+     "    def handle_separator(self, c):\n        self.current_separator = c\n        if self.current_state == STATE_START_PARSING"),
+    ('D6', 'change', 'C15', Q, "            if c in string.whitespace:\n", "            if c in string.whitespace and self.current_state != STATE_START_ID:\n"),
+    ('D7', 'change', 'C15', Q, "            self.current_state = STATE_START_SLICE_0\n            self.current_id = self.convert_id()\n",
+     "            self.current_state = STATE_START_SLICE_0\n"),
+    ('D8', 'change', 'C15', Q, "        elif len(self.current_slice_elements) <= 3:  # 2 or 3", "        elif len(self.current_slice_elements) <= 4:  # 2 or 3"),
+    ('D9', 'change', 'C15', Q, "            if self.current_state == STATE_START_SUBSET_SLICE_0:\n                self.current_state = STATE_START_SUBSET_SLICE_X\n",
+     "            if self.current_state == STATE_START_SUBSET_SLICE_0:\n                self.current_state = STATE_START_SLICE_X\n"),
+    ('D10', 'change', 'C15', Q, "        self.current_separator = None\n        self.current_slice_elements = []\n", "        self.current_separator = None\n"),
+    ('D11', 'change', 'C15', Q, "        if (c == ']' and self.current_token == '' and\n            self.current_state in (STATE_START_SLICE_0,\n                                       STATE_START_SUBSET_SLICE_0)):\n            raise unexpected_char_error(c, self.pos)\n\n",
+     ""),
+    ('D12', 'change', 'C15', Q, "            if self.bare_id_matches_all:\n", "            if True:\n"),
+    ('D13', 'change', 'C15', Q, "'@/>0123456789ABCDEFGHIJKLMNOPQRSTUVWXYZ'", "'@/>0123456789ABCDEFGHIJKLMNOPQRSTUVWXY'"),
+    ('D14', 'change', 'C15', Q, "        if self.current_token == '':\n            raise PathExprParsingError('empty ID at position {}'.format(self.pos))\n\n", ""),
+    ('D15', 'change', 'C15', Q, "        elif self.current_state == STATE_STOP_SLICE:\n            self.add_new_path_component()\n\n        elif self.current_token != '':",
+     "        elif self.current_state in (STATE_STOP_SLICE, STATE_STOP_SUBSET_SLICE):\n            self.add_new_path_component()\n\n        elif self.current_token != '':"),
+    ('D16', 'change', 'C15', Q, "        except ValueError:\n            raise PathExprParsingError('invalid slice syntax", "        except TypeError:\n            raise PathExprParsingError('invalid slice syntax"),
+    ('D17', 'unsupported', 'C15', Q, "                    self.current_token += c\n\n                elif self.current_state == STATE_START_PARSING:",
+     "                    self.current_token = ''.join([self.current_token, c])\n\n                elif self.current_state == STATE_START_PARSING:"),
+    ('D18', 'unsupported', 'C15', Q, "        self.node_path.add_component(\n            PathComponent(self.current_separator, self.current_id, slc_obj)\n        )",
+     "        self.node_path.components.append(\n            PathComponent(self.current_separator, self.current_id, slc_obj)\n        )\n        log.debug(slc_obj)"),
+    ('D19', 'preserve', 'C15', Q, '@renameparse c ch', ''),
+    ('D20', 'preserve', 'C15', Q, "        self.current_id = None\n        self.current_separator = None\n", "        self.current_separator = None\n        self.current_id = None\n"),
+    ('D21', 'preserve', 'C15', Q, "            elif c in (':', ']'):", "            elif c == ':' or c == ']':"),
+    ('D22', 'preserve', 'C15', Q, "        if self.current_state == STATE_START_PARSING and c != PATH_SEPARATOR_ATTRIB:",
+     "        if c != PATH_SEPARATOR_ATTRIB and self.current_state == STATE_START_PARSING:"),
+    ('D23', 'preserve', 'C15', Q, "        token, self.current_token = self.current_token, ''\n", "        token = self.current_token\n        self.current_token = ''\n"),
+    ('D24', 'preserve', 'C15', Q, "        if len(self.current_slice_elements) == 0:", "        if self.current_slice_elements == []:"),
 ]
 
 
 def apply(text, a, b):
+    if a.startswith('@renameparse '):
+        _, old, new = a.split()
+        i = text.index('    def parse(self, path_expr):')
+        j = text.index('    def handle_left_bracket(self):')
+        body = re.sub(r'(?<![\w.\'])%s(?![\w\'])' % old, new, text[i:j])
+        return text[:i] + body + text[j:]
     if a.startswith('@rename '):
         _, old, new = a.split()
         i = text.index('def process_embedded_query_expr')
